@@ -69,22 +69,17 @@
 ; AX hideF-def
 (assert (forall ((v Val)) (! (hideRel v (hideF v)) :pattern ((hideF v)))))
 
-; ---- finalize: "$$" -> "$" in every key and string value (C06). For maps the result is only a function of the input
-; when no two keys collide after unescaping (keysInj); finF is left unconstrained otherwise (finding F9, C09).
+; ---- finalize: "$$" -> "$" in every key and string value (C06, C09). Keys are visited in ascending order, so when two
+; keys become equal after unescaping the greater one wins: the result is a function of the input.
 (define-fun unesc ((s String)) String (str.replace_all s "$$" "$"))
 (declare-fun finF (Val) Val)
-(define-fun keysInj ((m MapC)) Bool
-  (forall ((a String) (b String)) (=> (and (not (= (select m a) VAbsent)) (not (= (select m b) VAbsent)) (= (unesc a) (unesc b))) (= a b))))
 (define-fun-rec finL ((l Lst)) Lst (ite ((_ is LNil) l) LNil (LCons (finF (hd l)) (finL (tl l)))))
+(define-fun-rec finFold ((acc MapC) (m MapC) (ks SLst)) MapC
+  (ite ((_ is SNil) ks) acc (finFold (store acc (unesc (shd ks)) (finF (select m (shd ks)))) m (stl ks))))
 (define-fun finRel ((v Val) (r Val)) Bool
   (ite ((_ is VStr) v) (= r (VStr (unesc (sv v))))
   (ite ((_ is VList) v) (= r (VList (finL (ls v))))
-  (ite ((_ is VMap) v)
-       (=> (keysInj (mc v))
-           (and ((_ is VMap) r)
-                (forall ((k String)) (=> (not (= (select (mc v) k) VAbsent)) (= (select (mc r) (unesc k)) (finF (select (mc v) k)))))
-                (forall ((k2 String)) (=> (not (= (select (mc r) k2) VAbsent))
-                     (exists ((k String)) (and (not (= (select (mc v) k) VAbsent)) (= (unesc k) k2)))))))
+  (ite ((_ is VMap) v) (= r (VMap (finFold emptyM (mc v) (sortedKeys (mc v)))))
   (= r v)))))
 ; AX finF-def
 (assert (forall ((v Val)) (! (finRel v (finF v)) :pattern ((finF v)))))
